@@ -691,6 +691,13 @@ class Verifier(Engine):
             self.func_defaults[c.name] = {}
             return None
         fd = self.find_function(relpath, c.source_name or c.name, c.decorator)
+        # a decorator replaces the function: only the ones that leave its behaviour as written are accepted (a cache, a retry wrapper,
+        # a validator ... would make the verified body something other than what runs)
+        for dec in fd.decorator_list:
+            dtxt = ast.unparse(dec)
+            if not (dtxt in ("staticmethod", "classmethod", "property", "abstractmethod", "abc.abstractmethod", "override", "typing.override")
+                    or dtxt.endswith(".setter") or dtxt.endswith(".getter")):
+                raise ContractError(f"{c.name}: decorator @{dtxt} is not modelled (the body under contract is not what runs)")
         params: list[tuple[str, Ty]] = []
         defaults: dict[str, ast.expr] = {}
         args = fd.args.args
